@@ -47,23 +47,27 @@ class GridDriver:
             vals = []
             for v in self.world.cells[name]:
                 try:
-                    vals.append(int(v))
+                    if isinstance(v, (tuple, list)):
+                        # a list-like cell value k, k+1, ... is projected to its first element if it is that progression
+                        vals.append(int(v[0]) if list(v) == [v[0] + j for j in range(len(v))] and len(v) >= 2 else -99998)
+                    else:
+                        vals.append(int(v))
                 except Exception:  # noqa: BLE001
                     vals.append(-99999)
             out.append([str(name), vals])
         return out
 
-    def op_grid(self, cls, shape):
+    def op_grid(self, cls, shape, wrap=False):
         W, H, D = shape
         m = Model()
         if cls == "discrete":
-            self.world = DiscreteWorld(m, W, H, D)
+            self.world = DiscreteWorld(m, W, H, D, wrap_env=wrap)
             self.dims = 3
         elif cls == "line":
-            self.world = LineWorld(m, W)
+            self.world = LineWorld(m, W, wrap_env=wrap)
             self.dims = 1
         elif cls == "grid2d":
-            self.world = GridWorld(m, W, H)
+            self.world = GridWorld(m, W, H, wrap_env=wrap)
             self.dims = 2
         else:
             raise AssertionError(cls)
@@ -90,7 +94,7 @@ class GridDriver:
             else:
                 row = gc(x, y, z)
             pos = _ints(row["pos"])
-            vals = [[str(k), int(row[k])] for k in row.index if k != "pos"]
+            vals = [[str(k), int(row[k][0]) if isinstance(row[k], (tuple, list)) else int(row[k])] for k in row.index if k != "pos"]
         except Exception as e:  # noqa: BLE001
             exc = e
         self.events.append({"op": "get_cell", "c": list(c), "out": outcome(exc), "pos": pos, "vals": vals})
@@ -144,6 +148,10 @@ class GridDriver:
             gen = lambda pos, cells: 100 * pos[0] + 10 * pos[1] + pos[2] + k  # noqa: E731
         elif kind == "constant":
             gen = ConstantGenerator(k)
+        elif kind == "tconst":
+            # a constant that is itself list-like (an RGB triple, a vector): every cell holds the WHOLE value.
+            # As long as the number of cells: pandas would spread it over the cells if it were assigned directly.
+            gen = ConstantGenerator(tuple(k + j for j in range(max(n, 2))))
         elif kind == "list":
             vals = [7 * (i + 1) + k for i in range(n)]
             gen = list(vals)
@@ -182,7 +190,7 @@ class GridDriver:
             (w.addCellComponent if ALIAS[0] else w.add_cell_component)(name, gen)
         except Exception as e:  # noqa: BLE001
             exc = e
-        self.events.append({"op": "add_cell_component", "name": name, "kind": "array" if kind == "roarray" else kind, "k": k, "vals": vals, "dims": self.dims,
+        self.events.append({"op": "add_cell_component", "name": name, "kind": {"roarray": "array", "tconst": "constant"}.get(kind, kind), "k": k, "vals": vals, "dims": self.dims,
                             "out": outcome(exc), "cols": self.cols()})
 
     def op_mutate(self, name):
@@ -238,7 +246,7 @@ def c09_programs(max_ext):
     out = []
     for s in shapes(max_ext):
         for cls in classes_for(s):
-            prog = [["grid", cls, s], ["add", "p", "callable", 3], ["add", "q", "list", 1]]
+            prog = [["grid", cls, s, (sum(s) + len(out)) % 2 == 1], ["add", "p", "callable", 3], ["add", "q", "list", 1]]
             prog += [["id_of", c] for c in cells(s)]
             prog += [["get_cell", c] for c in probe(s)]
             # the row must be the cell's CURRENT row: look every cell up again after components were removed / replaced
@@ -272,12 +280,12 @@ def c11_random_program(rng, max_ext=3, length=10):
         if rng.random() < 0.5:
             s[1] = 0
     cls = rng.choice(classes_for(s))
-    prog = [["grid", cls, s]]
+    prog = [["grid", cls, s, rng.random() < 0.3]]
     names = ["p", "q", "r", "s t", "pos2"]
     for _ in range(length):
         r = rng.random()
         if r < 0.55:
-            prog.append(["add", rng.choice(names), rng.choice(["callable", "constant", "list", "array", "roarray", "lookup", "lookup"]), rng.choice([0, 3, 5, -4])])
+            prog.append(["add", rng.choice(names), rng.choice(["callable", "constant", "tconst", "list", "array", "roarray", "lookup", "lookup"]), rng.choice([0, 3, 5, -4])])
         elif r < 0.7:
             prog.append(["mutate", rng.choice(names)])
         elif r < 0.9:
